@@ -1816,6 +1816,15 @@ static void state_read_content(struct snapraid_state* state, const char* path, S
 			break;
 		}
 
+		/* nothing is allowed after the CRC, that must be the last record */
+		if (crc_checked) {
+			/* LCOV_EXCL_START */
+			log_fatal("Unexpected data after the CRC in '%s' at offset %" PRIi64 "\n", path, stell(f));
+			log_fatal("This content file is damaged! Use an alternate copy.\n");
+			exit(EXIT_FAILURE);
+			/* LCOV_EXCL_STOP */
+		}
+
 		if (c == 'f') {
 			/* file */
 			char sub[PATH_MAX];
